@@ -229,6 +229,10 @@ FAMILIES.append(
            n_quick=600, n_thorough=3000, shards_quick=3, shards_thorough=12,
            required_labels=["container=lf", "container=lf_full", "drop_invalid_rows", "subsample", "outcome=SchemaErrors"]))
 
+from . import c06_labels as _labels  # noqa: E402
+
+FAMILIES += _labels.FAMILIES
+
 try:
     from . import c06_faults as _faults
 
